@@ -37,6 +37,9 @@ type c15Case struct {
 	// by one goroutine each; every lookup must still be answered with the template its own name denotes and
 	// the loader must see nothing but canonical forms of the names that were asked for.
 	Others []string `json:"others,omitempty"`
+	// Missing: the target does not exist. The lookup fails (includeIfExists: renders nothing), but what
+	// Loader and Cache are asked for is still nothing but the canonical name plus the configured extensions.
+	Missing bool `json:"missing,omitempty"`
 }
 
 const c15Entry = "/hop/entry"
@@ -90,7 +93,8 @@ func (c *recCache) Put(p string, t *jet.Template) {
 	*c.trace = append(*c.trace, traceEv{"Put", p, true})
 }
 
-var c15Segs = []string{"a", "b", "tpl.jet", "d1", ".", "..", "..", "", "a", "d2"}
+// (a backslash is an ordinary file name character where the path separator is '/')
+var c15Segs = []string{"a", "b", "tpl.jet", "d1", ".", "..", "..", "", "a", "d2", "..\\..\\esc", "b\\c", "..\\a"}
 
 func genC15Spelling(t *rapid.T, label string) string {
 	n := rapid.IntRange(1, 5).Draw(t, label+"N")
@@ -160,6 +164,9 @@ func genC15(t *rapid.T) c15Case {
 			c.Others = append(c.Others, genC15Spelling(t, "other"))
 		}
 	}
+	if len(c.Others) == 0 && rapid.IntRange(0, 4).Draw(t, "missing") == 0 {
+		c.Missing = true
+	}
 	if c.Via != "get" {
 		c.Hop = rapid.SampledFrom([]string{"", "", "extends", "import"}).Draw(t, "hop")
 		if c.Hop == "import" && c.Via == "extends" {
@@ -191,7 +198,7 @@ func (c c15Case) canonical(spelling string) string {
 }
 
 func cleanAbs(p string) bool {
-	if !strings.HasPrefix(p, "/") || strings.Contains(p, "\\") {
+	if !strings.HasPrefix(p, "/") {
 		return false
 	}
 	if p == "/" {
@@ -231,6 +238,9 @@ func (c c15Case) files(spelling string) map[string]string {
 	case "includeIfExists":
 		files[target] = "TARGET"
 		files[ref] = "[{{includeIfExists(" + q + ")}}]"
+	}
+	if c.Missing {
+		delete(files, target)
 	}
 	switch c.Hop {
 	case "extends":
@@ -413,6 +423,12 @@ func judgeC15(c c15Case) (v core.Verdict) {
 	if c.Hop != "" {
 		v.Label("hop:" + c.Hop)
 	}
+	if c.Missing {
+		v.Label("target-missing")
+	}
+	if strings.Contains(c.Spelling, "\\") {
+		v.Label("backslash-in-name")
+	}
 	if dots > c.Depth {
 		v.Label("more-dotdot-than-depth")
 	}
@@ -456,6 +472,22 @@ func judgeC15(c c15Case) (v core.Verdict) {
 				v.Failf("%s: Open(%q) without a preceding successful Exists (trace %v)", desc, ev.Path, trace)
 				return trace, false
 			}
+		}
+		if c.Missing {
+			// nothing to render: the lookup fails, except for includeIfExists, which renders nothing instead
+			if out.Panicked {
+				v.Failf("%s (target missing): panicked: %s", desc, out.PanicVal)
+				return trace, false
+			}
+			if c.Via == "includeIfExists" && c.Hop == "" && out.Failed() {
+				v.Failf("%s (target missing): includeIfExists of a missing template must not fail: %s (trace %v)", desc, out, trace)
+				return trace, false
+			}
+			if c.Via != "includeIfExists" && !out.Failed() {
+				v.Failf("%s (target missing): rendered %q although no file exists under the canonical name (trace %v)", desc, out.Out, trace)
+				return trace, false
+			}
+			return trace, true
 		}
 		if out.Failed() {
 			v.Failf("%s: failed although the target exists at the canonical path: %s (trace %v)", desc, out, trace)
